@@ -10,10 +10,13 @@ sizes and tables come from `Generated/*.lean`.
 
 Status of the clauses (see also checks/C03.json `level_note`):
 * proved here for all models / byte strings: `unrepresentable_rejected`, `checksum_alignment_independent`,
-  `checksum_spec`, `checksum_no_overflow`;
+  `checksum_spec` (which includes: no `u32` overflow), and the lossless round trip `decode (encode x) = x` with
+  the exact encoded length for the three path building blocks – info field, hop field and the whole standard
+  path (`info_decode_encode`, `hop_decode_encode`, `std_path_decode_encode`);
 * validated on every run by the correspondence harness against the real encoder / decoder, the reference
-  decoder and an independent RFC 1071 implementation, not yet proved: `encode_length`, `decode_encode`,
-  `ref_agrees`, `len_fields_truthful`, `checksum_verifies`, `encode_decode_canonical`.
+  decoder and an independent RFC 1071 implementation, not yet proved: `encode_length` / `decode_encode` for the
+  whole packet (common + address header, UDP, SCMP), `ref_agrees`, `len_fields_truthful`, `checksum_verifies`,
+  `encode_decode_canonical`.
 -/
 namespace ScionVerif.Packet
 open ScionVerif ScionVerif.Layout ScionVerif.Generated.Layout ScionVerif.Generated.AddrType
@@ -24,8 +27,8 @@ open ScionVerif ScionVerif.Layout ScionVerif.Generated.Layout ScionVerif.Generat
 and path kind), if the model is not `Representable` – payload larger than the 16-bit PayloadLen field, header
 longer than 1020 bytes or not 4-aligned, flow id ≥ 2^20, an unknown host address whose id does not fit 2 bits /
 whose nibble is the one of IPv4, IPv6 or service addresses / whose length is not 4–16, a standard path with
-0 or more than 3 segments, an empty or >63-hop segment, a current index out of range or not fitting its 6-bit
-field, an unsupported path carrying a supported path type, an unknown SCMP message carrying a known type –
+0 or more than 3 segments, an empty or >63-hop segment, more than 64 hop fields in total, a current index out of
+range or not fitting its 6-bit field, an unsupported path carrying a supported path type, an unknown SCMP message carrying a known type –
 then `try_encode_to_vec` returns an error: nothing is encoded with wrapped or truncated fields.
 
 On the tree before the `fix:` commits of this property the statement was false (raw payload of 70 000 bytes →
@@ -75,5 +78,31 @@ open ScionVerif.Checksum in
 /-- RFC 1071 worked example through the digest at both alignments -/
 example : addSlice 0 true [0x00, 0x01, 0xf2, 0x03, 0xf4, 0xf5, 0xf6, 0xf7] = some 0xddf2 ∧
           addSlice 0 false [0x00, 0x01, 0xf2, 0x03, 0xf4, 0xf5, 0xf6, 0xf7] = some 0xddf2 := by decide
+
+
+/-! ## 3. lossless round trip of the path building blocks -/
+
+/-- **info_decode_encode**: every info field (`u8` flags, `u16` segment id, `u32` timestamp) encodes to exactly
+8 bytes that decode back to it. -/
+theorem info_decode_encode (i : InfoFieldM) (h : i.WellTyped) :
+    decodeInfo (encodeInfo i) = i ∧ (encodeInfo i).length = InfoField.SIZE_BYTES :=
+  ⟨decodeInfo_encodeInfo i h, encodeInfo_length i⟩
+
+/-- **hop_decode_encode**: every hop field encodes to exactly 12 bytes that decode back to it. -/
+theorem hop_decode_encode (h : HopFieldM) (hw : h.WellTyped) :
+    decodeHop (encodeHop h) = h ∧ (encodeHop h).length = HopField.SIZE_BYTES :=
+  ⟨decodeHop_encodeHop h hw, encodeHop_length h hw⟩
+
+/-- **std_path_decode_encode**: every representable standard path – 1 to 3 segments of 1 to 63 hop fields each (at most 64
+in total), current indices in range and within their 2- / 6-bit fields, arbitrary field values of the Rust types – encodes
+(`StandardPath::encode_unchecked`) to exactly `required_size()` bytes, and `StandardPath::from_view` of those
+bytes is the original path: meta header, every info field, every hop field and the segment structure. -/
+theorem std_path_decode_encode (p : StdPathM) (hr : p.Representable) (hw : p.WellTyped) :
+    decodeStd (encodeStd p) = p ∧ (encodeStd p).length = p.requiredSize :=
+  decodeStd_encodeStd p hr hw
+
+example : StdPathM.Representable ⟨0, 1, [⟨⟨1, 7, 9⟩, [⟨0, 1, 2, 3, [1, 2, 3, 4, 5, 6]⟩, ⟨0, 1, 2, 3, [1, 2, 3, 4, 5, 6]⟩]⟩]⟩ := by
+  refine ⟨by decide, by decide, ?_, by decide, by decide, by decide, by decide⟩
+  intro s hs; simp at hs; subst hs; decide
 
 end ScionVerif.Packet
